@@ -216,19 +216,35 @@ def stateful_eval(
         )
 
     # Evaluate and return
-    return eval(
-        compiled,
-        {},
-        LayeredMapping(
-            {
-                "__FORMULAIC_CONTEXT__": env,
-                "__FORMULAIC_METADATA__": metadata,
-                "__FORMULAIC_SPEC__": spec,
-                "__FORMULAIC_STATE__": state,
-            },
-            env,
-        ),
-    )  # nosec
+    namespace = LayeredMapping(
+        {
+            "__FORMULAIC_CONTEXT__": env,
+            "__FORMULAIC_METADATA__": metadata,
+            "__FORMULAIC_SPEC__": spec,
+            "__FORMULAIC_STATE__": state,
+        },
+        env,
+    )
+    return eval(compiled, _NestedScopeGlobals(namespace), namespace)  # nosec
+
+
+class _NestedScopeGlobals(dict):  # type: ignore[type-arg]
+    """
+    The globals of an evaluation whose names live in a (non-`dict`) mapping.
+
+    The names used directly in an evaluated expression are looked up in the
+    locals mapping passed to `eval`, but those used inside a nested scope of the
+    expression (the body of a lambda, a generator expression) are only ever
+    looked up in the globals. Forwarding missing keys to the same mapping makes
+    names resolve identically wherever they are written.
+    """
+
+    def __init__(self, namespace: Mapping):
+        super().__init__()
+        self.__namespace = namespace
+
+    def __missing__(self, key: str) -> Any:
+        return self.__namespace[key]
 
 
 def _is_stateful_transform(node: ast.AST, env: Mapping) -> bool:
